@@ -5,8 +5,8 @@ CONSTANTS
   MsgKeys = {"o1", "o2", "a1", "a2", "b1"}
   MaxDec = 1
   ManualMax = 1
-  Combos <- CombosT2
-  MaxHist = 3
+  Combos <- CombosT4
+  MaxHist = 4
 VIEW GenView
 ACTION_CONSTRAINT EmitBehaviour
 CHECK_DEADLOCK FALSE
